@@ -687,6 +687,53 @@ def _dqniter_bind():
     return b
 
 
+def _saciter_bind():
+    b = _dqniter_bind()
+    selfo = b["self"]
+
+    def sac_train(ex, n, a, k):
+        if len(a) != 12 or set(k) != {"key"}:
+            fail(n, "sac_train call form")
+        want = ["pol", "opt", None, "q1", "q2", "t1", "t2", "q_opt", "la", "alpha_opt", "tent", "(Z.of_nat count)"]
+        got = [x.t if isinstance(x, Sc) else None for x in a]
+        for i, (w, g) in enumerate(zip(want, got)):
+            if w is not None and w != g:
+                fail(n, f"sac_train argument {i} is {g}, expected {w}")
+        if a[2].t != "(ss_buf " + _SACITER_SS + ")":
+            fail(n, f"sac_train is not handed the buffer of the new step state: {a[2].t}")
+        if k["key"].t != "(ks k 3 1)":
+            fail(n, "sac_train is not handed the train key")
+        return (O("pol'"), O("opt'"), R("q1'"), R("q2'"), O("q_opt'"), R("la'"), O("alpha_opt'"), O("log"))
+    selfo.fields["sac_train"] = Prim(sac_train)
+    selfo.fields["tau"] = R("tau")
+    selfo.fields["per_iteration"] = _method("algorithm/sac.py", "SAC", "per_iteration", selfo)
+    tree = ast.parse((src_root() / "algorithm/sac.py").read_text())
+    scope = {}
+    for node in tree.body:
+        if isinstance(node, ast.FunctionDef) and node.name == "_soft_update_targets":
+            scope[node.name] = Closure(node, scope)
+    selfo.fields["per_iteration"].closure.scope = scope
+    b["state"] = _alg_state({"iteration_count": Z("(Z.of_nat count)"), "step_state": O("ss"), "env": O("env"), "policy": O("pol"), "opt_state": O("opt"),
+                             "callback_state": O("cbs"), "qf1": R("q1"), "qf2": R("q2"), "qf1_target": R("t1"), "qf2_target": R("t2"),
+                             "q_opt_state": O("q_opt"), "log_alpha": R("la"), "alpha_opt_state": O("alpha_opt"), "target_entropy": R("tent")})
+    for nm, v in _SCHED_PRIMS.items():
+        if nm != "eqx.tree_at":
+            b["@" + nm] = v
+    return b
+
+
+_SACITER_SS = "(if (Z.eqb (Z.of_nat N) (1)%Z) then (collect1 pol ss (ks k 3 0)) else (collectN pol ss (ksplit_keys (ks k 3 0) (Z.to_nat (Z.of_nat N)))))"
+
+
+def _saciter_out(res, ex):
+    if not (isinstance(res, Obj) and res.name == "alg_state"):
+        raise TranslateError("iteration no longer returns the algorithm state")
+    f = res.fields
+    return [("count", "Z", term_of(f["iteration_count"], "Z")), ("policy", "X", term_of(f["policy"])), ("log_alpha", "R", term_of(f["log_alpha"], "R")),
+            ("qf1", "R", term_of(f["qf1"], "R")), ("qf2", "R", term_of(f["qf2"], "R")),
+            ("t1", "R", term_of(f["qf1_target"], "R")), ("t2", "R", term_of(f["qf2_target"], "R"))]
+
+
 def _dqniter_out(res, ex):
     if not (isinstance(res, Obj) and res.name == "alg_state"):
         raise TranslateError("iteration no longer returns the algorithm state")
@@ -1105,6 +1152,11 @@ KERNELS = {
                    "(ss_buf : SS -> BUF) (ss_cb : SS -> SCB) (train : X -> OS -> BUF -> X -> kpath -> X * OS * LOG) (cb_iter : CB -> Z -> SCB -> X -> OS -> kpath -> CB) "
                    "(ss : SS) (pol target : X) (opt : OS) (cbs : CB) (k : kpath)",
                    _dqniter_out, opaque_attrs={"callback_state": "ss_cb", "buffer": "ss_buf"}),
+            Kernel("saciter", "algorithm/sac.py", "SAC", "iteration", _saciter_bind,
+                   "{SS X OS BUF CB SCB : Type} (N count : nat) (collect1 : X -> SS -> kpath -> SS) (collectN : X -> SS -> list kpath -> SS) "
+                   "(ss_buf : SS -> BUF) (ss_cb : SS -> SCB) (cb_iter : CB -> Z -> SCB -> X -> OS -> kpath -> CB) "
+                   "(ss : SS) (pol pol' : X) (opt opt' : OS) (cbs : CB) (tau q1 q1' q2 q2' t1 t2 la la' : R) (k : kpath)",
+                   _saciter_out, opaque_attrs={"callback_state": "ss_cb", "buffer": "ss_buf"}),
             Kernel("sactrain", "algorithm/sac.py", "SAC", "sac_train", _sactrain_bind,
                    "{X : Type} (autotune : bool) (freq count : nat) (policy policy' opt opt' qf1 qf1' qf2 qf2' q_opt q_opt' alpha_opt alpha_opt' : X) (la la' : R)",
                    _sactrain_out)],
